@@ -114,6 +114,10 @@ pub proof fn lemma_join_use_associative(a: WordUse, b: WordUse, c: WordUse)
 // ---------------- extracted items -------------------------------------------------------------
 //@extract file=src/constant.rs path="const BYTE_SIZE_BITS" kind=type
 //@end
+//@extract file=src/constant.rs path="const WORD_SIZE_BITS" kind=type
+//@end
+//@extract file=src/constant.rs path="const WORD_SIZE_BYTES" kind=type
+//@end
 //@extract file=src/constant.rs path="const BOOL_WIDTH_BITS" kind=type
 //@end
 //@extract file=src/constant.rs path="const ADDRESS_WIDTH_BITS" kind=type
